@@ -1,4 +1,5 @@
 import SlogModel.Model.Parse
+import SlogModel.Lemmas.Utf8
 import SlogModel.Gen.Facts
 
 /-!
@@ -233,6 +234,39 @@ theorem C09_parse_render (cfg : Cfg) (h : Hdr) (msg : Bytes)
     simp [hm, hsl, cutMsg]
   · simp [hm, cutMsg]
 
+/-- **C09 (cut at a valid UTF-8 boundary).** Let `orig` be the valid UTF-8 message a client sent and
+`orig.take n` what reached the parser (`n < orig.length` only when the framer cut the record at the
+record limit, which the parser sees as `raw ≥ maxRec`).  The stored message is a prefix of `orig`,
+is valid UTF-8, and is shorter than the applicable limit by at most the three bytes of a cut rune. -/
+theorem C09_cut_at_utf8_boundary (cfg : Cfg) (raw : Nat) (orig : Bytes) (n : Nat)
+    (hv : Utf8.valid orig = true) (hcut : n < orig.length → raw ≥ cfg.maxRec) :
+    ∃ k, cutMsg cfg raw (orig.take n) = orig.take k ∧ Utf8.valid (orig.take k) = true ∧
+      k ≤ min (min n cfg.maxMsg) orig.length ∧ min (min n cfg.maxMsg) orig.length ≤ k + 3 := by
+  unfold cutMsg
+  simp only [List.length_take]
+  by_cases h1 : min n orig.length > cfg.maxMsg
+  · simp only [h1, if_true, decide_true, Bool.true_or, List.take_take]
+    obtain ⟨k, a, b, c, d⟩ := Utf8.clean_take_valid orig hv (min cfg.maxMsg n)
+    exact ⟨k, a, b, by omega, by omega⟩
+  · simp only [h1, if_false, decide_false, Bool.false_or]
+    by_cases h2 : raw ≥ cfg.maxRec
+    · simp only [h2, decide_true, if_true]
+      obtain ⟨k, a, b, c, d⟩ := Utf8.clean_take_valid orig hv (min n orig.length)
+      refine ⟨k, ?_, b, by omega, by omega⟩
+      rw [← a, List.take_eq_take_min]
+    · simp only [h2, decide_false]
+      have hn : orig.length ≤ n := by
+        false_or_by_contra
+        exact h2 (hcut (by omega))
+      refine ⟨orig.length, by simp [List.take_of_length_le hn], by simpa using hv, by omega, by omega⟩
+
+/-- a message within the limits that was not cut is stored as it is, valid or not -/
+theorem C09_uncut_unchanged (cfg : Cfg) (raw : Nat) (msg : Bytes)
+    (h1 : msg.length ≤ cfg.maxMsg) (h2 : raw < cfg.maxRec) : cutMsg cfg raw msg = msg := by
+  have : ¬ msg.length > cfg.maxMsg := by omega
+  have h3 : ¬ raw ≥ cfg.maxRec := by omega
+  simp [cutMsg, this, h3]
+
 /-- **C09 (out-of-range PRI rejected).** A numeric PRI of 192 or more is dropped (and counted as such). -/
 theorem C09_pri_out_of_range (cfg : Cfg) (h : Hdr) (msg : Bytes)
     (hp : 192 ≤ h.pri ∧ h.pri ≤ 999) (hf : cfg.facilities.length = 24)
@@ -280,5 +314,12 @@ def sampleHdr : Hdr :=
 
 example : sampleHdr.NoSpaces ∧ sampleCfg.minLen ≤ (render sampleHdr (b!"hello world!")).length := by
   simp [Hdr.NoSpaces, sampleHdr, sampleCfg, render, dec]
+
+/-- "héllo wörld€" cut at 10 bytes falls inside `ö`: the stored message ends before it -/
+example : Utf8.valid [104, 195, 169, 108, 108, 111, 32, 119, 195, 182, 114, 108, 100, 226, 130, 172] = true ∧
+    cutMsg sampleCfg 60 [104, 195, 169, 108, 108, 111, 32, 119, 195, 182, 114, 108, 100, 226, 130, 172]
+      = [104, 195, 169, 108, 108, 111, 32, 119, 195, 182] ∧
+    cutMsg { sampleCfg with maxMsg := 9 } 60 [104, 195, 169, 108, 108, 111, 32, 119, 195, 182, 114, 108, 100, 226, 130, 172]
+      = [104, 195, 169, 108, 108, 111, 32, 119] := by decide
 
 end C09
